@@ -50,6 +50,13 @@ LEVEL = {
             "otherwise), and tree_conservation by induction over the spawned family: all trajectories from one initial condition sum to the initial weight; "
             "tensor structure of from_quadrature forests (total weight = product of level sums = 1). Child start point / parent untouched: checked on the "
             "implementation (hop on clone, batches)", "7 C10", NOTE, "Lean 4 theorems (list accounting, induction over a nested family tree) + op-sequence correspondence + batch oracle"),
+    "C11": ("proof", "Lean theorems, any N and target: after the hop shift the new active state's diagonal moments vanish and all differences of diagonal "
+            "moments are unchanged; counterexample theorem for the originally pinned view-subtraction (N=2, target 0) with the partial statement it does "
+            "satisfy; both RK4 moment integrators preserve Hermiticity exactly (via the general RK4 invariance theorem); the exponential position-moment "
+            "integrator preserves Hermiticity; collapse gives zero moments and the pure active state. PARTIAL: Hermiticity of the exponential momentum-"
+            "moment integrator (three-index expression) and the dt->0 agreement of the two integrators are checked on the implementation only. All four "
+            "integrator branches, the shift for every target, and collapses with both stores are tied to the code", "7 C11", NOTE,
+            "Lean 4 theorems (Hermitian subspace invariance, Hadamard/unitary conjugation) + correspondence with captured eigh"),
     "C12": ("proof", "Lean theorems about the hidden state: the k-th threshold used is the k-th element of (user list ++ generator stream); the repaired "
             "__deepcopy__ shares a store location between clone and original only through attributes named in shallow_only (the queue); equal states "
             "evolve equally for any step function and any number of steps; SeedSequence.spawn bookkeeping (keys distinct, prefix-stable, never repeated "
